@@ -1,11 +1,26 @@
 (* C05 - PPS parsing recovers exactly the values encoded per H.264 7.3.2.2.
-   Status: proved here - the accepted-input half (every accepted PPS is within the ranges, refers to a
-   context SPS, has the prescribed list counts) and the exact detection of the optional tail; the
-   forward round trip against a spec encoder is carried by the correspondence check in this revision
-   (see DESIGN.md): theorem C05_roundtrip is not yet stated. *)
-From H264 Require Import Base.Prelude Model.BitReader Model.Parser Model.Sps Model.Context Model.Pps Spec.SyntaxSps
-     Proofs.Wp Proofs.SpsInv Proofs.PpsInv Proofs.C05_tail.
+   enc_pps (Spec/SyntaxPps.v) is the syntax table of 7.3.2.2 written as an encoder; wf_pps the ranges the
+   standard allows (7.4.2.2), relative to the SPS the PPS refers to in the context.  Proved: the forward
+   round trip for every conforming PPS over every context of accepted SPS (all seven slice-group map
+   types, the optional tail with its scaling lists), the exact detection of the optional tail, and the
+   accepted-input half (every accepted PPS is within the ranges and was consumed front to back). *)
+From H264 Require Import Base.Prelude Base.Bits Model.BitReader Model.Parser Model.Sps Model.Context Model.Pps Spec.SyntaxSps Spec.SyntaxPps
+     Proofs.Wp Proofs.SpsInv Proofs.PpsInv Proofs.C05_tail Proofs.PpsRoundtrip.
 Local Open Scope N_scope.
+
+(* every conforming PPS, encoded and followed by rbsp trailing bits (with any number of trailing zero
+   bits), parses - in any context whose SPS were accepted by the SPS parser - to a structure in which
+   every field equals the encoded value *)
+Theorem C05_roundtrip : forall c p plists k, ctx_sps_ok c -> wf_pps c p plists ->
+  pps_from_bits c (mk_src (enc_pps p plists ++ trailing_bits k) TEof) = OK p.
+Proof. exact pps_roundtrip. Qed.
+Print Assumptions C05_roundtrip.
+
+(* ... and the structure parser stops exactly at the trailing bits *)
+Theorem C05_body : forall c p plists k, ctx_sps_ok c -> wf_pps c p plists ->
+  pps_body c (mk_src (enc_pps p plists ++ trailing_bits k) TEof) = OK (p, mk_src (trailing_bits k) TEof).
+Proof. exact pps_body_roundtrip. Qed.
+Print Assumptions C05_body.
 
 (* the optional tail (transform_8x8_mode_flag ...) is detected exactly when data precedes the
    rbsp trailing bits *)
@@ -19,15 +34,39 @@ Print Assumptions C05_tail_exact.
    context, <= 8 slice groups with the prescribed shapes (type 0: 2..8 run lengths; type 2: n
    rectangles with top_left <= bottom_right; type 6: ids < 8), ref counts <= 32, QP/QS/chroma offsets
    in range, 6 + (2|6) picture scaling lists by transform flag and chroma format *)
-Theorem C05_accepted_partial : forall c s, ctx_sps_ok c ->
+Theorem C05_accepted : forall c s, ctx_sps_ok c ->
   match pps_from_bits c s with OK p => inv_pps c p | ERR _ => True | _ => False end.
 Proof. exact pps_from_bits_inv. Qed.
-Print Assumptions C05_accepted_partial.
+Print Assumptions C05_accepted.
 
 (* nothing is skipped backwards or read twice: the structure parser consumes a prefix of its input *)
-Theorem C05_consumes_partial : forall c s v s', ctx_sps_ok c -> pps_body c s = OK (v, s') -> inv_pps c v /\ consumes s s'.
+Theorem C05_consumes : forall c s v s', ctx_sps_ok c -> pps_body c s = OK (v, s') -> inv_pps c v /\ consumes s s'.
 Proof.
   intros c s v s' Hc H. pose proof (wp_pps_body c s (fun v s' => inv_pps c v /\ consumes s s') Hc (fun v s' Hi Hcs => conj Hi Hcs)) as Hw.
   rewrite H in Hw. exact Hw.
 Qed.
-Print Assumptions C05_consumes_partial.
+Print Assumptions C05_consumes.
+
+(* non-vacuity: a 4x3-macroblock High 4:4:4 SPS in the context; a PPS with an explicit slice-group map
+   (type 6, 3 groups, 12 ids), the optional tail, and twelve picture scaling lists one of which is coded *)
+Example C05_ex :
+  let sp := mk_sps 244 0 40 3 (mk_chroma_info YUV444 false 2 2 false None) 4 PocTypeTwo 4 false 3 2 Frames true None None in
+  let c := put_seq_param_set ctx_empty sp in
+  let m := mk_psm [SlUseDefault; SlNotPresent; SlNotPresent; SlNotPresent; SlNotPresent; SlNotPresent]
+                  (Some [SlNotPresent; SlNotPresent; SlNotPresent; SlNotPresent; SlNotPresent; SlNotPresent]) in
+  let p := mk_pps 7 3 true false (Some (SgExplicit 2 [0; 1; 2; 2; 1; 0; 0; 0; 1; 1; 2; 2])) 3 0 true 2 (-30)%Z 4%Z (-12)%Z true false true
+                  (Some (mk_ext true (Some m) 12%Z)) in
+  let plists := Some [Some [(-8)%Z]; None; None; None; None; None; None; None; None; None; None; None] in
+  wf_pps c p plists /\
+  pps_from_bits c (mk_src (enc_pps p plists ++ trailing_bits 5) TEof) = OK p.
+Proof.
+  cbv zeta. split; [|vm_compute; reflexivity].
+  unfold wf_pps. cbn [pic_parameter_set_id pps_seq_parameter_set_id slice_groups num_ref_idx_l0_default_active_minus1
+    num_ref_idx_l1_default_active_minus1 weighted_bipred_idc pic_init_qp_minus26 pic_init_qs_minus26 chroma_qp_index_offset extension].
+  split; [lia|]. split; [lia|]. eexists. split; [vm_compute; reflexivity|].
+  cbn [chroma_info_ bit_depth_luma_minus8 wf_slice_group wf_pps_ext transform_8x8_mode_flag pic_scaling_matrix_
+       second_chroma_qp_index_offset psm4x4 psm8x8 length].
+  repeat match goal with |- _ /\ _ => apply conj end; try lia; try (vm_compute; reflexivity); try discriminate.
+  - repeat constructor; lia.
+  - repeat constructor; lia.
+Qed.
